@@ -240,8 +240,13 @@ func (rpt *Report) newGraph(nodes graph.NodeSet) *graph.Graph {
 
 	// Clean up file paths using heuristics.
 	prof := rpt.prof
-	for _, f := range prof.Function {
-		f.Filename = trimPath(f.Filename, o.TrimPath, o.SourcePath)
+	if !rpt.pathsTrimmed {
+		// Trim only once: trimPath is not idempotent, and the graph may be
+		// rebuilt several times from the same profile while trimming nodes.
+		for _, f := range prof.Function {
+			f.Filename = trimPath(f.Filename, o.TrimPath, o.SourcePath)
+		}
+		rpt.pathsTrimmed = true
 	}
 	// Removes all numeric tags except for the bytes tag prior
 	// to making graph.
@@ -1277,7 +1282,7 @@ func New(prof *profile.Profile, o *Options) *Report {
 		return measurement.ScaledLabel(v, o.SampleUnit, o.OutputUnit)
 	}
 	return &Report{prof, computeTotal(prof, o.SampleValue, o.SampleMeanDivisor),
-		o, format}
+		o, format, false}
 }
 
 // NewDefault builds a new report indexing the last sample value
@@ -1334,6 +1339,8 @@ type Report struct {
 	total       int64
 	options     *Options
 	formatValue func(int64) string
+
+	pathsTrimmed bool // whether function file names have been trimmed already
 }
 
 // Total returns the total number of samples in a report.
